@@ -16,6 +16,7 @@ var opKindsCursorTree = []string{
 var moveKinds = []string{
 	"left", "left", "right", "right", "up", "up", "min", "max", "next", "next", "next", "prev", "prev", "prev",
 	"goto", "goto", "clone", "switch", "switch", "inorder", "hasnext", "hasnext", "hasprev", "hasprev",
+	"root", "root",
 }
 
 func genCursorCase(t *rapid.T) CursorCase {
